@@ -161,6 +161,7 @@ def run(prog, rep, tier='quick'):
         'and reflection coefficient, starting from real(r[0]); (nesting) nothing computed in iteration k depends on the '
         'requested order; (scaling) a, k degree 0 and P degree 1 in r; (cholesky) the three back ends solve with matching '
         'triangular flags / L then L^H. NOT decided: that the recursions satisfy T x = z numerically, stability, |k|<1.')
+    rep.rule('dtype', 'HERMTOEP / TOEPLITZ: no complex value is stored into a real buffer and the solution is complex when the matrix or the right-hand side is')
     rep.rule('charge', 'no operation in the recursion combines different modulation charges; outputs carry the charges of their representation')
     rep.rule('guard', 'update of P -> (P<=0 -> raise) before the next division by P / end of iteration')
     rep.rule('recurrence', 'P = P*(1-|k|^2) and the same k is stored in the coefficient arrays')
@@ -202,6 +203,33 @@ def run(prog, rep, tier='quick'):
         nconf = report_q(rep, 'charge', itp, {tp.qname}, 'general system', seen)
         nq += 1
         check_q(rep, 'charge', tp.qname, 'general system', 'solution x', v, Q.lin(1, Aff(0)), loc(tp.mod, tp.node), nconf)
+    # ---------------- dtype of the solution buffers: complex whenever the matrix or the right-hand side is
+    n_dt = 0
+    for mod_, fn_, mk_args in (
+            ('toeplitz', 'HERMTOEP', lambda tc, zc: [C.deg0(label='T0'), C.deg0((L.a,), tc, 'T'), C.deg0((L.a + 1,), zc, 'Z')]),
+            ('toeplitz', 'TOEPLITZ', lambda tc, zc: [C.deg0(label='T0'), C.deg0((L.a,), tc, 'TC'), C.deg0((L.a,), tc, 'TR'), C.deg0((L.a + 1,), zc, 'Z')])):
+        g = prog.func(mod_, fn_)
+        for tc, zc in ((True, False), (False, True), (True, True)):
+            v, itp = C.run_function(prog, mod_, fn_, mk_args(tc, zc), {})
+            ctx = 'matrix %s, right-hand side %s' % ('complex' if tc else 'real', 'complex' if zc else 'real')
+            if blocked(rep, 'dtype', g.qname, ctx, itp):
+                continue
+            n_dt += 1
+            bad = [c for c in itp.conflicts if c.comp == 'dtype' and c.func == g.qname]
+            vn = tonum(v) if v is not None else None
+            if bad:
+                for c in bad[:3]:
+                    key = ('dtype', c.func, c.construct)
+                    if key in seen:
+                        continue
+                    seen.add(key)
+                    rep.violation('dtype', g.qname, c.construct, '%s (first seen for %s): the solver returns the real part of the '
+                                  'solution only' % (c.msg, ctx), 'src/spectrum/%s.py:%s' % (c.mod, c.line))
+            elif vn is not None and vn.cplx is False:
+                rep.violation('dtype', g.qname, ctx, 'the returned solution has a real dtype although the system is complex', loc(g.mod, g.node))
+            else:
+                rep.proved('dtype', g.qname, ctx, 'every buffer written with complex values is complex; solution dtype complex', loc(g.mod, g.node))
+    rep.floor('dtype contexts', n_dt, 6)
     # ---------------- guards and recurrences
     ng = guard_rule(rep, prog, 'levinson', 'LEVINSON', 'P', allow='allow_singularity')
     ng += guard_rule(rep, prog, 'toeplitz', 'HERMTOEP', 'P')
